@@ -122,7 +122,7 @@ theorem codeFenceLoop_up (pre : List Line) (ld : Str) (p : Nat) : ∀ (fuel : Na
     simp only [codeFenceLoop, up_peek]
     split
     · rfl
-    · split <;> split <;> first
+    · split <;> first
         | (rw [up_next]; exact codeFenceLoop_up pre ld p fuel _ _)
         | rw [up_next]
 
